@@ -2,6 +2,7 @@
 //! properties: C11 C20
 //! note: chain notifications reach every listener (chain/mod.rs): the pairing `(T, U)` that lightning-block-sync users hand to the SPV client (chain monitor, channel manager) forwards every connected block AND every disconnection to both members with the arguments it was given; a member that hears connections but not disconnections keeps the effects of reorganised-out transactions
 //! trusted: R5: T and U are instantiated with an owned listener stub that records the notifications it receives in a ghost log (the real members are `Deref`s to listeners with interior state; `&self` is written `&mut self` so that the effect on that state can be stated); Header, TransactionData, BlockLocator are opaque/skeleton types
+//! trusted: Listen::block_connected (default body of the trait): R5 as above; R6: `block.txdata.iter().enumerate().collect()` is the external_body wrapper iter_enumerate_collect (element i is (i, &txdata[i])); a change to that adapter chain loses the anchor (exit 2)
 //! trusted: assume_specification for core::cmp::max / core::cmp::min (std definitions): present in every unit so that a change that introduces them is verified instead of being rejected by the tool
 use vstd::prelude::*;
 verus! {
@@ -50,6 +51,36 @@ impl ListenerPair {
     self.0.blocks_disconnected(fork_point);
 //@with
     
+//@end
+}
+// ---- Listen::block_connected (default body): a whole block is handed on as all of its transactions, each with its index ----
+pub struct Transaction { pub id: u64 }
+pub struct Block { pub header: Header, pub txdata: Vec<Transaction> }
+pub struct ToldFiltered { pub header: Header, pub txs: Seq<(usize, Transaction)>, pub height: u32 }
+pub struct WholeBlockListener { pub log: Ghost<Seq<ToldFiltered>> }
+pub open spec fn indexed(v: Seq<Transaction>) -> Seq<(usize, Transaction)> { Seq::new(v.len(), |i: int| (i as usize, v[i])) }
+pub open spec fn deref_pairs(v: Seq<(usize, &Transaction)>) -> Seq<(usize, Transaction)> { Seq::new(v.len(), |i: int| (v[i].0, *v[i].1)) }
+// R6: `E.iter().enumerate().collect()` into a Vec: element i is (i, &E[i]) (std semantics of Iter / Enumerate / collect)
+#[verifier::external_body] pub fn iter_enumerate_collect<'a>(v: &'a Vec<Transaction>) -> (r: Vec<(usize, &'a Transaction)>)
+    ensures deref_pairs(r@) == indexed(v@) { v.iter().enumerate().collect() }
+impl WholeBlockListener {
+    #[verifier::external_body] pub fn filtered_block_connected(&mut self, header: &Header, txdata: &Vec<(usize, &Transaction)>, height: u32)
+        ensures final(self).log@ == old(self).log@.push(ToldFiltered { header: *header, txs: deref_pairs(txdata@), height }) { unimplemented!() }
+//@extract lightning/src/chain/mod.rs :: trait Listen :: fn block_connected
+//@rw R5
+    fn block_connected(&self,
+//@with
+    fn block_connected(&mut self,
+//@rw R6
+    block.txdata.iter().enumerate().collect();
+//@with
+    iter_enumerate_collect(&block.txdata);
+//@ensures P C11 a-whole-block-is-handed-on-as-every-one-of-its-transactions-with-its-index-under-the-blocks-own-header-and-height
+    final(self).log@ == old(self).log@.push(ToldFiltered { header: block.header, txs: indexed(block.txdata@), height }),
+//@mutant whole_block_announced_one_height_up
+    self.filtered_block_connected(&block.header, &txdata, height);
+//@with
+    self.filtered_block_connected(&block.header, &txdata, height + 1);
 //@end
 }
 }
